@@ -291,6 +291,30 @@ Theorem block_atomic_refuted_removal_inside_loses_staged_file :
 Proof. exact staged_file_lost_p. Qed.
 Print Assumptions block_atomic_refuted_removal_inside_loses_staged_file.
 
+(* --- the undo log is replayed to the end (seed C07c): DatastoreTransaction.rollback swallows the error of EACH undo action
+   separately, so an action whose artifact is gone (the move-back / os.remove of an ingest whose dataset a purge inside the same block
+   has already deleted) is skipped and every OLDER event is still undone -- for every log and state *)
+Theorem undo_continues_after_missing_artifact : forall d v b l s,
+  fget d (fs s) = None -> undo_all (UBack d v :: l) s = undo_all l s /\ fget b (fs (undo_all (UBack d v :: URm b :: l) s)) = None.
+Proof. exact undo_continues_both_p. Qed.
+Print Assumptions undo_continues_after_missing_artifact.
+
+(* the variant that stops at the first failing undo action (what seed C07c does) leaves the older artifact behind *)
+Theorem undo_continues_refuted_when_replay_stops :
+  fget 2 (fs s_undo) = None /\ fget 3 (fs (undo_stop [UBack 2 102; URm 3] s_undo)) = Some 1 /\
+  fget 3 (fs (undo_all [UBack 2 102; URm 3] s_undo)) = None.
+Proof. exact undo_stop_leaves_older_artifact_p. Qed.
+Print Assumptions undo_continues_refuted_when_replay_stops.
+
+(* the trigger programs on the shipped model (corpus/C07/undo_log.json): B's artifact is removed by the rollback *)
+Theorem undo_continues_trigger_programs :
+  (let '(s', r) := exec shipped (PBlock [POp (Put 3 1); POp (Ingest Move 2); POp (Purge 2); PFail]) (init e0) in
+   r = Raised false /\ cur s' = cur (init e0) /\ fs s' = [] /\ ptr s' = []) /\
+  (let '(s', r) := exec shipped (PBlock [POp (Put 3 1); PBlock [POp (Ingest Move 2); POp (Purge 2)]; PFail]) (init e0) in
+   r = Raised false /\ cur s' = cur (init e0) /\ fs s' = [] /\ ptr s' = []).
+Proof. exact undo_continues_program_p. Qed.
+Print Assumptions undo_continues_trigger_programs.
+
 (* leftovers_collected_by_empty_trash: two fault positions of a purge leave an artifact nothing refers to *)
 Theorem leftovers_refuted_trash_insert_swallowed :
   exists j, let '(s', r) := exec shipped (POp (Purge 1)) (with_fuse j s_one) in
